@@ -248,6 +248,7 @@ func runC18(w *World) *Result {
 	r.Rule("R-C18-capture", "one $( ) assigned to a fresh helper; $? read in the next line; result order stdout, \"\", status", 3)
 	r.Rule("R-C18-driver", "every argument of every stage is evaluated once, in order, as a used value before the single AppCall", 1)
 	ProtoRule(w, r, "R-C18-driver", func(n string) bool { return n == "AppCall" })
+	StaleListRule(w, r, "R-C18-driver")
 	for _, role := range []string{"bash", "batch"} {
 		b, err := BuildBackend(w, role)
 		if err != nil {
